@@ -27,7 +27,7 @@ out.
 
 from __future__ import absolute_import
 
-from gevent import ssl
+from slimta.smtp.io import create_default_context
 
 from .client import SmtpRelayClient
 from .lmtpclient import LmtpRelayClient
@@ -100,7 +100,7 @@ class StaticSmtpRelay(RelayPool):
         self._client_class = client_class or self._default_class
         self._client_kwargs = client_kwargs
         self._client_kwargs['context'] = context or \
-            ssl.create_default_context()
+            create_default_context()
 
     def add_client(self):
         return self._client_class((self.host, self.port), self.queue,
